@@ -375,7 +375,7 @@ def instances(tier, seed):
     yield from _rest(tier, seed, rnd, routes, vks)
     # the bulk family last, so that a wall-clock cap never cuts the scenarios above
     w4 = list(key_sets(4))
-    w4 = rnd.sample(w4, 150 if tier == 'quick' else 12000)
+    w4 = rnd.sample(w4, 150 if tier == 'quick' else 5000)
     for ks in w4:
         n += 1
         o = orders(ks, n)[n % len(orders(ks, n))]
@@ -411,6 +411,10 @@ def _rest(tier, seed, rnd, routes, vks):
         [(w, 6, p) for w in (16, 32, 64, 256, 267, 1023) for p in (0, (w - 6) // 2, w - 6)]
     for (w, win, pos) in wins:
         for fill in (('zeros', 'diff') if tier == 'quick' else ('zeros', 'ones', 'alt', 'diff')):
+            if w >= 1000 and not (pos == w - win and fill in ('zeros', 'ones')):
+                # a label of about a thousand bits that is not a run of equal bits does not fit a cell (2 + 10 + n label bits): such
+                # key sets are not representable in TON either; only long runs of equal bits with the window at the end are
+                continue
             yield 'h_symkeys', dict(width=w, nk=2, win=win, pos=pos, fill=fill)
 
 
@@ -421,7 +425,7 @@ def twins(tier, seed):
 
 INSTANCE_TIMEOUT = {'quick': 200, 'thorough': 1200}
 BOUNDS = {
-    'key sets': 'every non-empty key set of widths 1..3 in up to three insertion orders; width 4: 150 seeded sets (quick) / 12 000 seeded sets of the 65 535 (thorough)',
+    'key sets': 'every non-empty key set of widths 1..3 in up to three insertion orders; width 4: 150 seeded sets (quick) / 5 000 seeded sets of the 65 535 (thorough)',
     'values': 'all values of uint8/uint64/int16/coins(9 bit, two length classes)/addr_std/inline cells, symbolic',
     'symbolic keys': '2 fully symbolic keys for widths 1..4 (thorough 1..6), 3 for width 2 (thorough 2..4); wide keys (16..1023) symbolic in a 4-bit (thorough 6-bit) window, other bits concrete patterns',
     'key range': 'signed keys over width+2 bits for widths 1..4 (thorough 1..7) through set_int_key, set and a key serializer',
